@@ -16,7 +16,9 @@ package attestations
 //@ func [C09] (*Attestations).GetReferenceAuthorizationFor -> (env, err)
 //@   requires a != nil && repo != nil
 //@   ensures namesChange: err == nil ==> env != nil && authNamesChange(env, refName, fromID, toID)
+//@   ensures nilOnError: err != nil ==> env == nil
 
 //@ func [C09] (*Attestations).GetGitHubPullRequestApprovalAttestationFor -> (env, err)
 //@   requires a != nil && repo != nil
 //@   ensures namesChange: err == nil ==> env != nil && approvalNamesChange(env, refName, fromRevisionID, targetTreeID)
+//@   ensures nilOnError: err != nil ==> env == nil
